@@ -164,18 +164,48 @@ def const_str(ctx, f, e):
     return None
 
 
+class _NegIf(object):
+    """View of ``if not X: A else: B`` as ``if X: B else: A``."""
+    _fields = ()
+
+    def __init__(self, node):
+        self.node = node
+        self.test = node.test.operand
+        self.body = node.orelse
+        self.orelse = node.body
+        self.lineno = node.lineno
+        self.col_offset = node.col_offset
+        self._parent = getattr(node, '_parent', None)
+
+
+def _norm_if(cur, branch):
+    """Negated tests are presented in positive form with the branches
+    swapped, so that rules see one shape for both spellings."""
+    t = cur.test
+    if isinstance(t, ast.UnaryOp) and isinstance(t.op, ast.Not) and \
+            cur.orelse:
+        v = getattr(cur, '_negview', None)
+        if v is None:
+            v = cur._negview = _NegIf(cur)
+        return v, ('orelse' if branch == 'body' else 'body')
+    return cur, branch
+
+
 def guarding_ifs(node, stop):
     """(If node, branch) pairs enclosing ``node`` up to ``stop`` (a function
-    node): branch is 'body' or 'orelse'."""
+    node): branch is 'body' or 'orelse'.  ``if not X: .. else: ..`` is
+    returned as its positive mirror image."""
     out = []
     child = node
+    if isinstance(node, _NegIf):
+        node = child = node.node
     cur = getattr(node, '_parent', None)
     while cur is not None and cur is not stop:
         if isinstance(cur, ast.If):
             if any(child is s for s in cur.body):
-                out.append((cur, 'body'))
+                out.append(_norm_if(cur, 'body'))
             elif any(child is s for s in cur.orelse):
-                out.append((cur, 'orelse'))
+                out.append(_norm_if(cur, 'orelse'))
         child = cur
         cur = getattr(cur, '_parent', None)
     return out
@@ -465,6 +495,21 @@ def canon(f, e, depth=0, _seen=None):
         return '(%s%s%s)' % (canon(f, e.left, depth + 1, _seen),
                              type(e.op).__name__,
                              canon(f, e.right, depth + 1, _seen))
+    if isinstance(e, ast.Compare):
+        parts = [canon(f, e.left, depth + 1, _seen)]
+        for op, c in zip(e.ops, e.comparators):
+            parts.append(type(op).__name__)
+            parts.append(canon(f, c, depth + 1, _seen))
+        return '(%s)' % ' '.join(parts)
+    if isinstance(e, ast.BoolOp):
+        return '(%s)' % (' %s ' % type(e.op).__name__).join(
+            canon(f, v, depth + 1, _seen) for v in e.values)
+    if isinstance(e, ast.UnaryOp):
+        return '%s(%s)' % (type(e.op).__name__,
+                           canon(f, e.operand, depth + 1, _seen))
+    if isinstance(e, (ast.Tuple, ast.List, ast.Set)):
+        return '[%s]' % ','.join(canon(f, x, depth + 1, _seen)
+                                 for x in e.elts)
     if isinstance(e, ast.IfExp):
         return '{%s|%s}' % tuple(sorted([
             canon(f, e.body, depth + 1, _seen),
